@@ -43,22 +43,16 @@ theorem c18_only_out (c : Ctx) (fs : FS) (p : Str)
   · simp only [hl, if_false]
     by_cases hrm : (c.flags.remove && decide (c.flags.outFile ≠ [])) = true
     · simp only [hrm, if_true]
-      cases hfs : fs c.flags.outFile with
-      | absent => simp [afterRemove_only_out c _ p hp ha, eff]
-      | file b =>
-        cases hf : c.faults.remove with
-        | none => simp [afterRemove_only_out c _ p hp ha, eff, setNode, hp]
-        | some e =>
-          cases e with
-          | notExist => simp [afterRemove_only_out c _ p hp ha, eff]
-          | msg m => simp [eff]
-      | dir =>
-        cases hf : c.faults.remove with
-        | none => simp [afterRemove_only_out c _ p hp ha, eff, setNode, hp]
-        | some e =>
-          cases e with
-          | notExist => simp [afterRemove_only_out c _ p hp ha, eff]
-          | msg m => simp [eff]
+      cases hf : c.faults.remove with
+      | some e =>
+        cases e with
+        | notExist => simp [afterRemove_only_out c _ p hp ha, eff]
+        | msg m => simp [eff]
+      | none =>
+        cases hfs : fs c.flags.outFile with
+        | absent => simp [afterRemove_only_out c _ p hp ha, eff]
+        | file b => simp [afterRemove_only_out c _ p hp ha, eff, setNode, hp]
+        | dir => simp [afterRemove_only_out c _ p hp ha, eff, setNode, hp]
     · simp only [hrm]
       simp [afterRemove_only_out c _ p hp ha]
 
